@@ -33,8 +33,10 @@ def FlagTable.ofBits (bits : Array Bool) : FlagTable :=
     longest := fun aa ac => get (70 + 2 * boolIdx aa + boolIdx ac)
     backtrack := get 74
     fail := get 75
-    py := get 76 }
+    py := get 76
+    apply := fun a b => get (77 + 4 * flagsIdx a + flagsIdx b)
+    optable := fun hp c => get (93 + 4 * boolIdx hp + flagsIdx c) }
 
-def FlagTable.numEntries : Nat := 77
+def FlagTable.numEntries : Nat := 101
 
 end Sourcer
